@@ -225,7 +225,19 @@ def codec_roundtrip(rep, rng, n):
     for _ in range(n):
         v = {rng.choice(["a", "b", "c", "script"]): codec_value(rng, rng.randint(0, 2)) for _ in range(rng.randint(1, 3))}
         vals.append((v, rng.choice(CODECS)))
-    enc_cases = [chain_case([{"wrap": {"$value": v, "$encode": f}}], env={}, tail=("outdocs",)) for v, f in vals]
+    # a codec at the END of a stack: what the earlier transforms produced (an EMPTY list included) is what the text must denote
+    PRE = [({}, ["values"]), ({}, ["tolist:="]), ({"a": []}, ["tolist:="]), ([{}, {}], ["tolist:="]), ([[], []], ["flatten"]),
+           ({"a": [], "b": []}, ["values", "flatten"]), ([], ["flatten"]), ({"a": 1, "b": "x"}, ["values"]), ([[1, 2], [3]], ["flatten"]),
+           ({"k": ["a", "b"], "e": ""}, ["tolist:="]), ({"a": [1], "b": []}, ["values", "flatten"])]
+    src = {}
+    for j in range(len(vals)):
+        if rng.random() < 0.2:
+            vin, stack = rng.choice(PRE)
+            f = rng.choice(["json", "jsonl", "json-pretty", "yaml", "yml"])
+            vals[j] = (apply(vin, stack), f)
+            src[j] = (vin, stack + [f])
+    enc_cases = [chain_case([{"wrap": {"$value": src[j][0], "$encode": src[j][1]} if j in src else {"$value": v, "$encode": f}}], env={}, tail=("outdocs",))
+                 for j, (v, f) in enumerate(vals)]
     enc = run_go([to_op(c, i) for i, c in enumerate(enc_cases)])
     dec_cases, idx, json_texts = [], [], []
     for i, (v, f) in enumerate(vals):
@@ -284,7 +296,7 @@ def codec_roundtrip(rep, rng, n):
     # transcode: one map carrying `$value` (text), `$decode: f` and `$encode: g` decodes first and encodes the result
     tr_cases, tr_idx = [], []
     for (i, text, kf) in idx:
-        if kf or rng.random() > 0.4:
+        if kf or rng.random() > 0.4 or i in src:
             continue
         v, f = vals[i]
         g = rng.choice(CODECS + ["values", "base64"])
